@@ -564,7 +564,7 @@ func checkC08(p *Program, r *Report) {
 			r.OK("R08.1", fmt.Sprintf("%s: hdf5.%s in state %s", FuncKey(fn), name, lkName[la.hdf5OK[ins]]))
 		})
 	}
-	r.Floor("R08.1", "hdf5 call sites in io", inIO, 400)
+	r.Floor("R08.1", "hdf5 call sites in io", inIO, 200)
 	r.Analysed["R08.1 hdf5 call sites (module)"] = total
 
 	// report failures
